@@ -362,12 +362,17 @@ func c22HoldsShifted(q *c22Query, specs []c22ShardSpec) bool {
 }
 
 var c22MinCount = map[string]int{}
+var c22Reported int
 
 func c22Report(r *vkit.Run, st *c22Stack, ds *c22Dataset, q *c22Query, dsNo, qNo int, class, detail string, extraFeat map[string]string) {
 	w := c22Witness{Query: q.String(), Class: class, Diff: detail, Dataset: ds.Describe, DatasetNo: dsNo, QueryNo: qNo}
 	mq := q
 	if class != "error" || true {
-		mq = c22MinimiseQuery(st, ds.Model, q, class)
+		// query minimisation is cheap (same shards); after a dozen violations only classify
+		if r.Violations() < 12 && c22Reported < 40 {
+			mq = c22MinimiseQuery(st, ds.Model, q, class)
+		}
+		c22Reported++
 		w.MinQuery = mq.String()
 		w.Shards = c22WitSpecs(ds.Specs)
 		if c22MinCount[class] < 1 && c22WatchdogFired == 0 {
@@ -422,6 +427,44 @@ func c22Report(r *vkit.Run, st *c22Stack, ds *c22Dataset, q *c22Query, dsNo, qNo
 			w.Class = class
 		}
 	}
+	// percentile: the same statement with rank 100 (defined for every non-empty window) agrees
+	// with the reference, i.e. the disagreement needs a window/series without a percentile value
+	if mq.Cols[0].Func == "percentile" && mq.Cols[0].P10 != 1000 && class != "error" {
+		c := *mq
+		c.Cols = append([]c22Col(nil), mq.Cols...)
+		c.Cols[0].P10 = 1000
+		if cl, _, e := c22Check(st, ds.Model, &c); cl == "" && e.Ambiguous == "" {
+			if _, _, e2 := c22Check(st, ds.Model, mq); e2.Notes["percentile_undefined_for_some_window"] == "true" {
+				feat["observed"] = class
+				class = "percentile_undefined_window_ends_result"
+				w.Class = class
+			}
+		}
+	}
+	// integral: exactly the series whose last input point is at timestamp 0 are missing
+	if mq.Cols[0].Func == "integral" && class == "series_count" {
+		if _, _, e, got := c22CheckG(st, ds.Model, mq); e != nil && e.Ambiguous == "" {
+			have := map[string]bool{}
+			for _, g := range got {
+				have[g.Name+"|"+c22TagString(g.Tags)] = true
+			}
+			only := len(e.Series) > 0
+			for _, sr := range e.Series {
+				present := have[sr.Name+"|"+c22TagString(sr.Tags)]
+				if sr.Optional {
+					continue
+				}
+				if present == sr.EndsAtEpoch {
+					only = false
+				}
+			}
+			if only {
+				feat["observed"] = class
+				class = "integral_series_ending_at_epoch_dropped"
+				w.Class = class
+			}
+		}
+	}
 	for k, v := range extraFeat {
 		feat[k] = v
 	}
@@ -430,6 +473,7 @@ func c22Report(r *vkit.Run, st *c22Stack, ds *c22Dataset, q *c22Query, dsNo, qNo
 			feat[k] = v
 		}
 	}
+	r.Event("violation_class:"+class, 1)
 	r.Violation(class, feat, w)
 }
 
@@ -443,13 +487,17 @@ func c22PanicGuard(t *testing.T) {
 }
 
 func TestC22(t *testing.T) {
+	if p := os.Getenv("VERIF_REPLAY"); p != "" {
+		c22ReplayFile(t, "C22", p)
+		return
+	}
 	r := vkit.Start(t, "C22", "exploration")
 	defer r.Finish()
 	defer c22PanicGuard(t)
 	r.Rule("case = (dataset, query): dataset = 2 measurements × 3–9 series (2–3 tag keys, sparse tag t2) × 1–3 typed fields on a 1 s grid with negative timestamps, stored in 1–3 real shards with TSM snapshots, cache-resident batches, overwrites and optional reopen; query drawn from the C22 grammar (raw | count/sum/mean/min/max/first/last; WHERE time+tags+fields; GROUP BY time(i[,off]) / tags / *; fill; ORDER BY time DESC; LIMIT/OFFSET/SLIMIT/SOFFSET) and executed by query.Select over coordinator.LocalShardMapper, rows via query.Emitter(chunk 0); compared with the independent reference evaluator. non-trivial = the reference result has ≥ 1 row; distinct = hash of (dataset description, query text)")
 	r.Trust("github.com/influxdata/influxql parser (statement text → AST)", "vkit/sk shard opener")
 	var reportDur time.Duration
-	nDS := r.N(60, 1000)
+	nDS := r.N(90, 3000)
 	perDS := r.N(30, 40)
 	excluded := []string{
 		"transformations (C23) and any function outside count/sum/mean/min/max/first/last",
